@@ -156,9 +156,10 @@ class CP1Disk(CP1Object):
 
         res = np.arctan(center_norm + radius) - np.arctan(center_norm - radius)
         inverted = ~self.center_inside()
-        res[inverted] = np.pi - res[inverted]
 
-        return res
+        # np.where (rather than masked assignment) so that this also
+        # works for a single (non-composite) disk
+        return np.where(inverted, np.pi - res, res)
 
     def fs_center(self):
         center, radius = self.circle_parameters()
